@@ -217,7 +217,9 @@ def run(ctx):
     ne = exact_replay(ctx, insts, thorough)
     nt = table(ctx, thorough)
     npb = probe(ctx)
-    ctx.replayed = ne
+    from vlib import gradpattern
+    ngp = gradpattern.replay(ctx, ["rootfinder", "equilibrium", "minimize"], "rootgrad")
+    ctx.replayed = ne + ngp
     ctx.notes.update(exact_instances=len(insts), exact_cases=ne, table_cases=nt, probe_cases=npb)
     ctx.assumptions += [
         "exact part: scalar quadratic with an integer root; the forward solve starts 0.2 away from that root; runs that end at the other root are skipped (forward behaviour is C03's)",
